@@ -236,39 +236,107 @@ theorem price_ratio_adverse_and_banded (rate : R) (hr : 0 ≤ rate) (isBuy isLim
         simp only [mul_zero, zero_mul, add_zero]
         split_ifs <;> linarith
 
-/-- **C05.2 (TickSizeSlippage)** adverse direction holds … -/
-theorem tick_size_adverse (rate tick : R) (hr : 0 ≤ rate) (ht : 0 ≤ tick) (isBuy isLimit : Bool) (lp : R) (b : MBar)
-    (deal p : R) (h : slipPrice (.tickSize rate tick) isBuy isLimit lp b deal = some p) :
-    (isBuy = true → deal ≤ p) ∧ (isBuy = false → p ≤ deal) ∧ (rate = 0 → p = deal) := by
-  have htr : 0 ≤ tick * rate := mul_nonneg ht hr
-  cases isBuy with
-  | true =>
-    simp only [slipPrice, if_true, mul_one] at h
-    split_ifs at h with hle
-    injection h with h
-    subst h
-    refine ⟨fun _ => (by linarith), fun hx => (by cases hx), fun hx => ?_⟩
-    subst hx
-    simp only [mul_zero, add_zero]
-  | false =>
-    simp only [slipPrice, Bool.false_eq_true, if_false] at h
-    split_ifs at h with hle
-    injection h with h
-    subst h
-    refine ⟨fun hx => (by cases hx), fun _ => (by linarith), fun hx => ?_⟩
-    subst hx
-    simp only [mul_zero, zero_mul, add_zero]
+/-- the clamp of a slipped price into the day's band (both slippage models apply the same one) -/
+def clampBand (b : MBar) (t0 : R) : R :=
+  match validPrice b.limitDown with
+  | some d => R.pymax (match validPrice b.limitUp with | some u => R.pymin t0 u | none => t0) d
+  | none => (match validPrice b.limitUp with | some u => R.pymin t0 u | none => t0)
 
-/-- … but the band does NOT (finding F20): close 10.99 under limit-up 11.00 with three ticks of 0.01 fills a buy at 11.02 -/
-theorem tick_size_leaves_band :
-    ∃ (b : MBar) (deal p : R), BandWF b deal ∧ slipPrice (.tickSize 3 (1/100)) true false 0 b deal = some p ∧
-      ∃ u, b.limitUp = some u ∧ u < p := by
-  refine ⟨⟨some (1099/100), some 11, some (989/100), some 1000, false⟩, 1099/100, 1102/100, ?_, ?_, 11, rfl, ?_⟩
-  · refine ⟨fun u hu => ?_, fun d hd => ?_⟩
-    · injection hu with hu; subst hu; exact ⟨by decide +kernel, by decide +kernel⟩
-    · injection hd with hd; subst hd; exact ⟨by decide +kernel, by decide +kernel⟩
-  · decide +kernel
-  · decide +kernel
+theorem slipPrice_tickSize_eq (rate tick : R) (isBuy isLimit : Bool) (lp : R) (b : MBar) (deal : R) :
+    slipPrice (.tickSize rate tick) isBuy isLimit lp b deal =
+      if deal + tick * rate * (if isBuy then 1 else -1) ≤ 0 then none
+      else some (clampBand b (deal + tick * rate * (if isBuy then 1 else -1))) := by
+  rfl
+
+theorem clampBand_cases {b : MBar} {deal : R} (hb : BandWF b deal) :
+    (validPrice b.limitUp = none ∧ ∀ u, b.limitUp ≠ some u) ∨
+      (∃ u, validPrice b.limitUp = some u ∧ b.limitUp = some u ∧ deal ≤ u) := by
+  obtain ⟨hU, _⟩ := hb
+  cases hu : b.limitUp with
+  | none => exact Or.inl ⟨rfl, fun u h => by cases h⟩
+  | some u =>
+    obtain ⟨h1, h2⟩ := hU u hu
+    exact Or.inr ⟨u, validPrice_of_pos h2, rfl, h1⟩
+
+theorem clampBand_cases_down {b : MBar} {deal : R} (hb : BandWF b deal) :
+    (validPrice b.limitDown = none ∧ ∀ d, b.limitDown ≠ some d) ∨
+      (∃ d, validPrice b.limitDown = some d ∧ b.limitDown = some d ∧ d ≤ deal) := by
+  obtain ⟨_, hD⟩ := hb
+  cases hd : b.limitDown with
+  | none => exact Or.inl ⟨rfl, fun u h => by cases h⟩
+  | some d =>
+    obtain ⟨h1, h2⟩ := hD d hd
+    exact Or.inr ⟨d, validPrice_of_pos h2, rfl, h1⟩
+
+theorem clampBand_ge {b : MBar} {deal t0 : R} (hb : BandWF b deal) (h : deal ≤ t0) :
+    deal ≤ clampBand b t0 ∧ ∀ u, b.limitUp = some u → clampBand b t0 ≤ u := by
+  unfold clampBand
+  rcases clampBand_cases hb with ⟨hvu, nu⟩ | ⟨u, hvu, hu, hu1⟩ <;>
+  rcases clampBand_cases_down hb with ⟨hvd, nd⟩ | ⟨d, hvd, hdn, hd1⟩ <;>
+  simp only [hvu, hvd, R.pymin, R.pymax]
+  · exact ⟨h, fun u hu => absurd hu (nu u)⟩
+  · exact ⟨by split_ifs <;> linarith, fun u hu => absurd hu (nu u)⟩
+  · refine ⟨by split_ifs <;> linarith, fun u' hu' => ?_⟩
+    rw [hu] at hu'; injection hu' with hu'; subst hu'
+    split_ifs <;> linarith
+  · refine ⟨by split_ifs <;> linarith, fun u' hu' => ?_⟩
+    rw [hu] at hu'; injection hu' with hu'; subst hu'
+    split_ifs <;> linarith
+
+theorem clampBand_le {b : MBar} {deal t0 : R} (hb : BandWF b deal) (h : t0 ≤ deal) :
+    clampBand b t0 ≤ deal ∧ ∀ d, b.limitDown = some d → d ≤ clampBand b t0 := by
+  unfold clampBand
+  rcases clampBand_cases hb with ⟨hvu, nu⟩ | ⟨u, hvu, hu, hu1⟩ <;>
+  rcases clampBand_cases_down hb with ⟨hvd, nd⟩ | ⟨d, hvd, hdn, hd1⟩ <;>
+  simp only [hvu, hvd, R.pymin, R.pymax]
+  · exact ⟨h, fun d hd => absurd hd (nd d)⟩
+  · refine ⟨by split_ifs <;> linarith, fun d' hd' => ?_⟩
+    rw [hdn] at hd'; injection hd' with hd'; subst hd'
+    split_ifs <;> linarith
+  · exact ⟨by split_ifs <;> linarith, fun d hd => absurd hd (nd d)⟩
+  · refine ⟨by split_ifs <;> linarith, fun d' hd' => ?_⟩
+    rw [hdn] at hd'; injection hd' with hd'; subst hd'
+    split_ifs <;> linarith
+
+theorem clampBand_self {b : MBar} {deal : R} (hb : BandWF b deal) : clampBand b deal = deal := by
+  unfold clampBand
+  rcases clampBand_cases hb with ⟨hvu, nu⟩ | ⟨u, hvu, hu, hu1⟩ <;>
+  rcases clampBand_cases_down hb with ⟨hvd, nd⟩ | ⟨d, hvd, hdn, hd1⟩ <;>
+  simp only [hvu, hvd, R.pymin, R.pymax] <;> split_ifs <;> linarith
+
+/-- **C05.2 (TickSizeSlippage, after the repair of finding F20)** the tick model moves the price only in the adverse
+direction and — now clamped like the price-ratio model — never outside the day's band -/
+theorem tick_size_adverse_and_banded (rate tick : R) (hr : 0 ≤ rate) (ht : 0 ≤ tick) (isBuy isLimit : Bool) (lp : R) (b : MBar)
+    (deal p : R) (hd : 0 < deal) (hb : BandWF b deal) (h : slipPrice (.tickSize rate tick) isBuy isLimit lp b deal = some p) :
+    (isBuy = true → deal ≤ p ∧ ∀ u, b.limitUp = some u → p ≤ u) ∧
+    (isBuy = false → p ≤ deal ∧ ∀ d, b.limitDown = some d → d ≤ p) ∧
+    (rate = 0 → p = deal) := by
+  have _ := hd
+  rw [slipPrice_tickSize_eq] at h
+  have htr : 0 ≤ tick * rate := mul_nonneg ht hr
+  by_cases hp0 : deal + tick * rate * (if isBuy = true then 1 else -1) ≤ 0
+  · rw [if_pos hp0] at h; cases h
+  · rw [if_neg hp0] at h
+    injection h with h
+    subst h
+    refine ⟨?_, ?_, ?_⟩
+    · intro hx; subst hx
+      have h1 : deal ≤ deal + tick * rate * (if true = true then 1 else -1) := by
+        simp only [if_true, mul_one]; linarith
+      exact clampBand_ge hb h1
+    · intro hx; subst hx
+      have h1 : deal + tick * rate * (if false = true then 1 else -1) ≤ deal := by
+        simp only [Bool.false_eq_true, if_false]; linarith
+      exact clampBand_le hb h1
+    · intro hx; subst hx
+      have h1 : deal + tick * 0 * (if isBuy = true then 1 else -1) = deal := by ring
+      rw [h1]
+      exact clampBand_self hb
+
+/-- the former witness of finding F20 (close 10.99 under limit-up 11.00, three ticks of 0.01) now trades AT limit-up -/
+theorem tick_size_clamped_example :
+    slipPrice (.tickSize 3 (1/100)) true false 0 ⟨some (1099/100), some 11, some (989/100), some 1000, false⟩ (1099/100) = some 11 := by
+  decide +kernel
 
 /-- **C05.3** a limit order fills only when the prescribed price is at or better than its limit -/
 theorem limit_respected (cfg : MCfg) (ic : InsCfg) (o : Ord) (b : MBar) (au : Bool) (tv : Int) (cash : R)
@@ -313,24 +381,27 @@ theorem limit_price_slippage (o : Ord) (b : MBar) (deal : R) (hl : o.isLimit = t
     slipPrice .limitPrice o.isBuy o.isLimit o.limitPrice b deal = some o.limitPrice := by
   simp only [slipPrice, hl, if_true]
 
-/-- finding F22: under `LimitPriceSlippage` every OPENING order that reaches the pricing step makes `match` raise
-(the matcher reads `decider.rate`, which that class does not define) -/
-theorem limit_price_slippage_open_raises (cfg : MCfg) (hs : cfg.slip = .limitPrice) (ic : InsCfg) (o : Ord) (b : MBar)
+/-- after the repair of finding F22 (`LimitPriceSlippage.rate = 0`): an opening market order under `LimitPriceSlippage`
+with the limit switches off simply fills its remainder at the prescribed price (no exception, no extra cash check) -/
+theorem limit_price_slippage_open_fills (cfg : MCfg) (hs : cfg.slip = .limitPrice) (ic : InsCfg) (o : Ord) (b : MBar)
     (tv : Int) (cash : R) (fee : Int → R → R) (ct : Int → Int) (ho : o.effect = .open_) (hm : o.isLimit = false)
     (deal : R) (hd : b.deal = some deal) (hpos : 0 < deal) (hpl : cfg.priceLimit = false) (hil : cfg.inactiveLimit = false)
     (hvl : cfg.volumeLimit = false) :
-    matchOrder cfg ic o b false tv cash fee ct = .raises := by
-  have h1 : validPrice b.deal = some deal := by rw [hd]; exact validPrice_of_pos hpos
-  have h2 : priceStop cfg o b deal = none := by
+    matchOrder cfg ic o b false tv cash fee ct = .fill o.unfilled deal (ct o.unfilled) false := by
+  have hvd : validPrice b.deal = some deal := by rw [hd]; exact validPrice_of_pos hpos
+  have hps : priceStop cfg o b deal = none := by
     simp [priceStop, boardStop, hm, hpl]
-  have h3 : inactiveStop cfg b = false := by simp [inactiveStop, hil]
-  have h4 : fillOrStop cfg ic o b tv = some o.unfilled := by simp [fillOrStop, hvl]
-  have h5 : tradePriceOf cfg o b false deal = some deal := by
-    simp [tradePriceOf, slipPrice, hs, hm]
-  have h6 : needCheck cfg o = none := by
+  have hin : inactiveStop cfg b = false := by
+    simp [inactiveStop, hil]
+  have hf : fillOrStop cfg ic o b tv = some o.unfilled := by
+    simp [fillOrStop, hvl]
+  have htp : tradePriceOf cfg o b false deal = some deal := by
+    simp [tradePriceOf, hs, slipPrice, hm]
+  have hnc : needCheck cfg o = some false := by
     simp [needCheck, ho, hs, slipRate]
-  rw [matchOrder_eq, h1]
-  simp only [h2, h3, h4, h5, h6, Bool.false_eq_true, if_false]
+  rw [matchOrder_eq, hvd]
+  simp only [hps, hin, hf, htp, hnc, hm]
+  simp
 
 /-- non-vacuity: a market buy of 300 at close 10.5 with 1 % price-ratio slippage under limit-up 11 fills at 10.605 -/
 example : matchOrder ⟨true, true, false, 1/4, .priceRatio (1/100)⟩ ⟨false, 1, 0, 1, true, 100⟩
